@@ -171,7 +171,7 @@ func (img *image) valCase(txlog []byte, vlogs [][]byte, e *entryInfo, o outcome,
 			vl = append(vl, vk.Hex(v))
 		}
 	}
-	return fmt.Sprintf("CVal %d %s %s %d %d %s %s", img.cfg.mode(), vk.Hex(tl), vk.List(vl), e.vLen, uint64(e.vOff), vk.Hex(e.hVal[:]),
+	return fmt.Sprintf("CVal %d %d %s %s %d %d %s %s", maxValueLen, img.cfg.mode(), vk.Hex(tl), vk.List(vl), e.vLen, uint64(e.vOff), vk.Hex(e.hVal[:]),
 		resTerm(o, vk.Hex(val)))
 }
 
@@ -258,7 +258,7 @@ func (img *image) emit(r *vk.Run, round, cfgIdx int, j *job, res *jobResult) {
 				vl = append(vl, vk.Hex(v))
 			}
 		}
-		r.Case(fmt.Sprintf("CExp %d %s %s %s %s", img.cfg.mode(), vk.Hex(tl), vk.List(vl), vk.List(es),
+		r.Case(fmt.Sprintf("CExp %d %d %s %s %s %s", maxValueLen, img.cfg.mode(), vk.Hex(tl), vk.List(vl), vk.List(es),
 			resTerm(res.export, fmt.Sprintf("(%s, %s)", vk.Bool(res.expTrunc), vk.List(vs)))),
 			js, "ExportTx/"+fam+"/"+res.export.class(), true)
 	}
